@@ -160,6 +160,16 @@ public:
 
         m_fac_H(0, 0) = m_op.inner_product(v, w);
         m_fac_f.noalias() = w - v * m_fac_H(0, 0);
+        // f / ||f|| is going to be the next column of V, so (as in factorize_from())
+        // test whether (v^H)B(f/||f||) ~= 0. When ||f|| is much smaller than ||w||,
+        // cancellation leaves a component along v that is not small relative to ||f||;
+        // one step of Gram-Schmidt refinement removes it
+        const Scalar coef = m_op.inner_product(v, m_fac_f);
+        if (abs(coef) > m_eps * m_op.norm(m_fac_f))
+        {
+            m_fac_f.noalias() -= v * coef;
+            m_fac_H(0, 0) += coef;
+        }
 
         // In some cases, H[1,1] is already an eigenvalue of A,
         // so f would be zero in exact arithmetics. But due to rounding errors,
